@@ -21,6 +21,8 @@ One output line per input line.
                             (`<theorem>: <row> … @ file:line`), or `none`
   rows_c13api             → culprits of `vec_api_covered`: uncovered fns / bad entries / stale entries, or `none`
   rows_c17s               → falsifying rows of the C17 surface theorems (`<theorem>: … @ file:line`)
+  phantom_params          → reviewed phantom type parameters `defpath index` (or `none`)
+  unsafe_impls            → every `unsafe impl` row: `Trait type @ file:line`
   expr_macros             → `;`-separated names of the exported macros that take an expression
   rows_c01api             → uncovered fns / bad / stale entries of the byte-string coverage map
                             (`byt_api_covered: … @ file:line`), or `none`
@@ -261,6 +263,10 @@ def answer (line : String) : String :=
   | ["rows_c06"] => join rowsC06
   | ["rows_c17s"] => join rowsC17s
   | ["rows_c01api"] => join rowsC01api
+  | ["phantom_params"] =>
+    join (HipVerif.Model.Surface.phantomParams.map fun e => s!"{e.1} {e.2}")
+  | ["unsafe_impls"] =>
+    join (HipVerif.Gen.Surface.unsafeImpls.map fun u => s!"{decKey u.traitKey} {u.ty} @ {u.loc}")
   | ["expr_macros"] => String.intercalate ";" HipVerif.Model.Surface.exprMacros
   | ["rows_c01d"] => join rowsC01d
   | ["rows_c13api"] =>
